@@ -104,8 +104,17 @@ func (s *refState) entries(p string, keep func(k string) bool) [][2]string {
 }
 
 type refIter struct {
-	ents [][2]string
-	pos  int // -1 = before the first, len = past the end
+	ents  [][2]string
+	pos   int // -1 = before the first, len = past the end
+	epoch int // write epoch of the runner when the iterator was created (iterators of write transactions)
+	// iterators of write transactions: what the implementation's DESIGN yields (the committed entries of the range as
+	// they are, followed by the transaction's net puts of the range, each run ascending; theorem C11_seek_write_tx),
+	// which is not the transaction's view once the transaction has touched the range (known finding
+	// write-tx-iterator-not-view)
+	ents2 [][2]string
+	pos2  int
+	two   bool
+	a, b  [][2]string // the two runs ents2 is made of (a Seek restricts both to the keys >= its argument)
 }
 
 // ---------------------------------------------------------------- runner
@@ -139,6 +148,8 @@ type runner struct {
 	rsnap     *refState // what the open read transaction must see: the state committed when it began
 	deleted   map[string]bool
 	tainted   bool
+	wepoch    int // bumped by every operation that writes (or ends) the write transaction
+	wputs     map[string]map[string]string // net puts of the current write transaction: path id -> key -> value
 
 	src   func() []string
 	stats map[string]int
@@ -330,7 +341,7 @@ func (r *runner) doUpdate(op []string) {
 	var endTok []string
 	err := mwdb.Update(r.db, func(tx mwdb.DBTransaction) error {
 		r.wtx, r.inUpd = tx, true
-		r.pending, r.deleted = r.committed.clone(), map[string]bool{}
+		r.pending, r.deleted, r.wputs = r.committed.clone(), map[string]bool{}, map[string]map[string]string{}
 		for {
 			o := r.src()
 			if o == nil {
@@ -518,6 +529,10 @@ func (r *runner) dumpRef() string {
 func (r *runner) exec(op []string) (string, string) {
 	bad := func() (string, string) { return "skip", "-" }
 	switch op[0] {
+	case "put", "rm", "clear", "delb", "new", "ctop", "dtop", "commit", "rollback", "uend", "ubegin":
+		r.wepoch++
+	}
+	switch op[0] {
 	case "begin":
 		if len(op) != 2 {
 			return bad()
@@ -537,7 +552,7 @@ func (r *runner) exec(op []string) (string, string) {
 				return projErr(err), "BAD:ok"
 			}
 			r.wtx = tx
-			r.pending, r.deleted = r.committed.clone(), map[string]bool{}
+			r.pending, r.deleted, r.wputs = r.committed.clone(), map[string]bool{}, map[string]map[string]string{}
 			return "ok", "-"
 		}
 		if r.rtx != nil {
@@ -756,6 +771,11 @@ func (r *runner) exec(op []string) (string, string) {
 			r.pending.removeTree(p)
 			r.deleted[p] = true
 		}
+		for q := range r.wputs {
+			if strings.HasPrefix(q, p) {
+				delete(r.wputs, q)
+			}
+		}
 		return got, r.verdict(got, "ok")
 	case "names":
 		if len(op) != 2 {
@@ -795,6 +815,10 @@ func (r *runner) exec(op []string) (string, string) {
 				r.tainted = true // write through a handle of a deleted bucket: outside the property text
 			}
 			r.pending.put(pid(s.names), string(k), string(v))
+			if r.wputs[pid(s.names)] == nil {
+				r.wputs[pid(s.names)] = map[string]string{}
+			}
+			r.wputs[pid(s.names)][string(k)] = string(v)
 		}
 		return got, r.verdict(got, want)
 	case "rm":
@@ -812,6 +836,9 @@ func (r *runner) exec(op []string) (string, string) {
 		}
 		if got == "ok" && r.pending.kv[pid(s.names)] != nil {
 			delete(r.pending.kv[pid(s.names)], string(k))
+		}
+		if got == "ok" && r.wputs[pid(s.names)] != nil {
+			delete(r.wputs[pid(s.names)], string(k))
 		}
 		return got, r.verdict(got, "ok")
 	case "get":
@@ -849,6 +876,7 @@ func (r *runner) exec(op []string) (string, string) {
 		}
 		if got == "ok" {
 			delete(r.pending.kv, pid(s.names))
+			delete(r.wputs, pid(s.names))
 		}
 		return got, r.verdict(got, "ok")
 	case "pfx":
@@ -901,6 +929,22 @@ func (r *runner) exec(op []string) (string, string) {
 		sl := &islot{w: s.w, it: it}
 		if !s.w && !r.tainted {
 			sl.ref = &refIter{ents: r.view(false).entries(pid(s.names), keep), pos: -1}
+		} else if s.w && !r.tainted {
+			// an iterator of the write transaction lists what the transaction sees when it is created (its own puts
+			// and deletes included); it is judged as long as the transaction writes nothing more (seed C11g: a cached
+			// sorted key list made a NEW iterator miss a key that had been put, deleted and put again)
+			sl.ref = &refIter{ents: r.view(true).entries(pid(s.names), keep), pos: -1, epoch: r.wepoch, two: true, pos2: -1}
+			sl.ref.a = r.committed.entries(pid(s.names), keep)
+			sl.ref.ents2 = append([][2]string(nil), sl.ref.a...)
+			var b [][2]string
+			for k, v := range r.wputs[pid(s.names)] {
+				if keep(k) {
+					b = append(b, [2]string{k, v})
+				}
+			}
+			sort.Slice(b, func(i, j int) bool { return b[i][0] < b[j][0] })
+			sl.ref.b = b
+			sl.ref.ents2 = append(sl.ref.ents2, b...)
 		}
 		r.is[dst] = sl
 		return "ok", "-"
@@ -923,11 +967,24 @@ func (r *runner) exec(op []string) (string, string) {
 			ok = sl.it.Seek(append([]byte(nil), k...))
 			if sl.ref != nil {
 				sl.ref.pos = sort.Search(len(sl.ref.ents), func(i int) bool { return sl.ref.ents[i][0] >= string(k) })
+				// design list after Seek(k): the committed run from k on, then the run of net puts from k on
+				sl.ref.ents2 = nil
+				for _, run := range [][][2]string{sl.ref.a, sl.ref.b} {
+					for _, e := range run {
+						if e[0] >= string(k) {
+							sl.ref.ents2 = append(sl.ref.ents2, e)
+						}
+					}
+				}
+				sl.ref.pos2 = 0
 			}
 		} else {
 			ok = sl.it.Next()
 			if sl.ref != nil && sl.ref.pos < len(sl.ref.ents) {
 				sl.ref.pos++
+			}
+			if sl.ref != nil && sl.ref.pos2 < len(sl.ref.ents2) {
+				sl.ref.pos2++
 			}
 		}
 		key, val := sl.it.Key(), sl.it.Value()
@@ -936,13 +993,24 @@ func (r *runner) exec(op []string) (string, string) {
 			ks = hx(key)
 		}
 		got := fmt.Sprintf("it:%s:%s:%s", map[bool]string{true: "T", false: "F"}[ok], ks, hx(val))
-		if sl.ref == nil {
+		if sl.ref == nil || (sl.w && sl.ref.epoch != r.wepoch) {
 			return got, "-"
 		}
 		want := "it:F:nil:-"
 		if sl.ref.pos >= 0 && sl.ref.pos < len(sl.ref.ents) {
 			e := sl.ref.ents[sl.ref.pos]
 			want = fmt.Sprintf("it:T:%s:%s", hx([]byte(e[0])), hx([]byte(e[1])))
+		}
+		if sl.ref.two && got != want && !r.tainted {
+			want2 := "it:F:nil:-"
+			if sl.ref.pos2 >= 0 && sl.ref.pos2 < len(sl.ref.ents2) {
+				e := sl.ref.ents2[sl.ref.pos2]
+				want2 = fmt.Sprintf("it:T:%s:%s", hx([]byte(e[0])), hx([]byte(e[1])))
+			}
+			if got == want2 {
+				// not the transaction's view, but exactly what the design yields: the recorded finding
+				return got, "KF:" + want
+			}
 		}
 		return got, r.verdict(got, want)
 	}
@@ -1093,6 +1161,13 @@ func (g *gen) next() []string {
 	case "rm":
 		if r.Chance(40) {
 			g.queue = append(g.queue, []string{"get", op[1], op[2]})
+		}
+		if r.Chance(25) {
+			// delete, list, put the same key again, list with a fresh iterator
+			d1, d2 := "0", "1"
+			g.queue = append(g.queue, []string{"iter", d1, op[1], "0", "-", "-"}, []string{"next", d1},
+				[]string{"put", op[1], op[2], h(g.val())},
+				[]string{"iter", d2, op[1], "0", "-", "-"}, []string{"next", d2}, []string{"next", d2}, []string{"next", d2}, []string{"seek", d2, op[2]})
 		}
 	case "clear":
 		if r.Chance(50) {
